@@ -110,6 +110,14 @@ def cascade_images(
     if start < 1:
         return  # Nothing to do.
 
+    if not pio.level_has_tiles(start):
+        # Every tile above an empty level counts as left over from an earlier
+        # cascade and would be removed; make sure that a mistyped depth does not
+        # do that to a whole pyramid.
+        raise ValueError(
+            f"cannot cascade from level {start}: there are no tiles at that level"
+        )
+
     if tile_filter is None:
         # It's much faster if we can avoid calculating TOAST coordinate
         # information for the tiles.
